@@ -134,4 +134,73 @@ theorem C14_path_formula (g : Adj) (fuel : Nat) (pos : Nat → String) (a b : Na
       .ok (pathQ ((shortestPath g fuel (some a) (some b) sim).map List.length)) := by
   simp [Sim.path, h]
 
+/-! ### res: the selected subsumer is the one of highest *weight* (known finding F19) -/
+
+/-- `_most_informative_lcs` returns a lowest common hypernym whose weight is maximal among them:
+with weights monotone along hypernymy this is the *least* informative of the lowest common
+hypernyms, not the maximum-IC common subsumer the documentation defines -/
+theorem C14_res_partial (g : Adj) (fuel : Nat) (w : Nat → Rat) (a b c : Nat)
+    (h : mostInformativeLcs g fuel w a b = some c) :
+    c ∈ (lowestCommonHypernyms g fuel (some a) (some b) false).filterMap id ∧
+    ∀ x ∈ (lowestCommonHypernyms g fuel (some a) (some b) false).filterMap id, w x ≤ w c := by
+  unfold mostInformativeLcs at h
+  generalize (lowestCommonHypernyms g fuel (some a) (some b) false).filterMap id = L at h ⊢
+  cases L with
+  | nil => simp at h
+  | cons c0 t =>
+    simp only [Option.some.injEq] at h
+    have key : ∀ (t : List Nat) (m : Nat), (t.foldl (fun m x => if w m < w x then x else m) m = m ∨
+        t.foldl (fun m x => if w m < w x then x else m) m ∈ t) ∧ w m ≤ w (t.foldl (fun m x => if w m < w x then x else m) m) ∧
+        ∀ x ∈ t, w x ≤ w (t.foldl (fun m x => if w m < w x then x else m) m) := by
+      intro t
+      induction t with
+      | nil => intro m; simp
+      | cons y t ih =>
+        intro m
+        simp only [List.foldl_cons]
+        by_cases hlt : w m < w y
+        · obtain ⟨h1, h2, h3⟩ := ih y
+          simp only [hlt, if_true]
+          refine ⟨?_, le_trans (le_of_lt hlt) h2, ?_⟩
+          · rcases h1 with h1 | h1
+            · rw [h1]; right; exact List.mem_cons_self
+            · right; exact List.mem_cons_of_mem _ h1
+          · intro x hx
+            rcases List.mem_cons.mp hx with rfl | hx
+            · exact h2
+            · exact h3 x hx
+        · obtain ⟨h1, h2, h3⟩ := ih m
+          simp only [hlt, if_false]
+          refine ⟨?_, h2, ?_⟩
+          · rcases h1 with h1 | h1
+            · left; exact h1
+            · right; exact List.mem_cons_of_mem _ h1
+          · intro x hx
+            rcases List.mem_cons.mp hx with rfl | hx
+            · exact le_trans (not_lt.mp hlt) h2
+            · exact h3 x hx
+    obtain ⟨h1, h2, h3⟩ := key t c0
+    rw [h] at h1 h2 h3
+    refine ⟨?_, ?_⟩
+    · rcases h1 with h1 | h1
+      · rw [h1]; exact List.mem_cons_self
+      · exact List.mem_cons_of_mem _ h1
+    · intro x hx
+      rcases List.mem_cons.mp hx with rfl | hx
+      · exact h2
+      · exact h3 x hx
+
+/-- kernel-checked witness: 0 and 1 have the two lowest common hypernyms 2 and 3; with weights
+w 2 = 5 > w 3 = 1 the code selects 2, whose information content −log(5/total) is *smaller* than
+that of 3 — `res` is not the maximum IC over the common subsumers -/
+def twoLcs : Adj := fun i => match i with
+  | 0 => [2, 3]
+  | 1 => [2, 3]
+  | 2 => [4]
+  | 3 => [4]
+  | _ => []
+
+theorem C14_res_two_lcs_counterexample :
+    mostInformativeLcs twoLcs 6 (fun i => if i = 2 then 5 else if i = 3 then 1 else 6) 0 1 = some 2 := by decide +kernel
+
 end WnVerif.Props.C14
